@@ -131,7 +131,7 @@ def server_of_future(E, fut):
     return None
 
 
-def run_plumbing(ck, tier):
+def run_plumbing(ck, tier, only=None):
     E = ck.E
     install_models(E)
     create = E.fn_named('create_memcrs_server')
@@ -182,7 +182,12 @@ def run_plumbing(ck, tier):
                                   z3.BoolVal(F['n'] == exp_listeners and F['all']), {}, None, [])
                     if not F['n'] or not F['all']:
                         continue
-                    ck.obligation(f'plumbing {label}: configured item limit, connection limit and backlog reach every listener', p.pc, z3.And(F['cfg']), {}, None, [])
+                    ck.obligation(f'plumbing {label}: the configured item size limit reaches every listener', p.pc, z3.And(F['cfg'][0::3]), {},
+                                  lambda m, where, runtime_type=runtime_type, policy=policy: native_item_limit(ck, runtime_type, policy), [])
+                    if only == 'item-limit':
+                        continue
+                    ck.obligation(f'plumbing {label}: configured connection limit and backlog reach every listener', p.pc,
+                                  z3.And(F['cfg'][1::3] + F['cfg'][2::3]), {}, None, [])
                     ck.obligation(f'plumbing {label}: one store object is shared by every listener', p.pc, z3.BoolVal(len(F['stores']) == 1), {}, None, [])
                     want = 'RandomPolicy' if policy == 'Random' else 'MemoryStore'
                     ck.obligation(f'plumbing {label}: the selected eviction policy object is the one serving requests', p.pc,
@@ -198,7 +203,8 @@ def run_plumbing(ck, tier):
                                   F['permits'] == z3.ZeroExt(32, conn_limit), R, on_w, [])
                     ck.cover(f'plumbing {runtime_type}', True)
                     ck.sample({'config': label, 'listeners': F['n'], 'semaphores': len(F['sems']), 'stores': len(F['stores']), 'top': F['top']})
-    native_config_validation(ck)
+    if only is None:
+        native_config_validation(ck)
 
 
 def native_config_validation(ck):
@@ -212,6 +218,31 @@ def native_config_validation(ck):
         else:
             ck.replays_bad += 1
             ck.inconclusive.append(f'native whole-server run {sc["args"]}: {out} (expected {want} connections served)')
+
+
+def native_item_limit(ck, runtime_type, policy):
+    """the real server started with --item-size-limit 4096 --memory-limit 64MiB: a set of 8203 body bytes must be refused (0x03) and a
+    set of 100 bytes stored -> (True if not | None, description, scenario)"""
+    from .wire import frame, parse_response
+    import struct
+    big = frame(0x01, b'big', struct.pack('>II', 0, 0), b'v' * 8192, opaque=1)
+    small = frame(0x01, b'small', struct.pack('>II', 0, 0), b'v' * 100, opaque=2)
+    rt = 'current-thread' if runtime_type == 'CurrentThread' else 'multi-thread'
+    args = ['--runtime-type', rt, '--threads', '2', '--item-size-limit', '4096', '--memory-limit', '64MiB']
+    if policy == 'Random':
+        args += ['--eviction-policy', 'random']
+    sc = {'kind': 'server', 'args': args, 'conns': 1, 'probe_frames': [big.hex(), small.hex()]}
+    out = ck.replay([sc])[0]
+    if 'error' in out:
+        return None, 'native whole-server scenario failed: ' + str(out['error']), sc
+    got = bytes.fromhex(out.get('probe_received', ''))
+    st, pos = [], 0
+    while len(got) - pos >= 24:
+        r = parse_response(got[pos:])
+        st.append((r['opaque'], r['status']))
+        pos += 24 + r['body']
+    desc = f"memcrsd {' '.join(args)}: set of 8203 body bytes then set of 113 body bytes answered (opaque, status) {st} (expected [(1, 3), (2, 0)])"
+    return (None if st == [(1, 3), (2, 0)] else True), desc, sc
 
 
 def native_limit(ck, threads):
@@ -422,3 +453,119 @@ def native_accept_reset(ck):
     d_served = len(c[3].get('received', '')) >= 48
     desc = f"connection limit 1: A served, B waiting, C connects and resets while still in the backlog, A and B close, then D connects: D served = {d_served}"
     return (None if d_served else True), desc, sc
+
+
+# ------------------------------------------------------------------------------------------------ the server clock (C20 / C05)
+def install_timer_models(E):
+    """tokio::time::{Instant::now, interval_at, Interval::tick, set_missed_tick_behavior} after the documented semantics: the
+    first tick completes at `start`, later ones at start + k * period; a tick future completes at some time t >= its deadline
+    (the task may be delayed arbitrarily); then Burst (default): deadline += period; Delay: deadline = t + period;
+    Skip: deadline = the next multiple of the period after t.  Time is a symbolic non-decreasing number of milliseconds."""
+    if getattr(E, '_timer_models', False):
+        return
+    E._timer_models = True
+    from mirse.models import tokio_io
+
+    @reg(E, 'tokio::time::Instant::now', 'Instant::now')
+    def now(E, a, ctx):
+        return Agg('Instant', [E.rt['clock_ms']])
+
+    @reg(E, 'Duration::from_secs', 'std::time::Duration::from_secs')
+    def from_secs(E, a, ctx):
+        return Agg('Duration', [a[0] * 1000])
+
+    @reg(E, 'interval_at', 'tokio::time::interval_at')
+    def interval_at(E, a, ctx):
+        return Agg('Interval', [a[0].fields[0], a[1].fields[0], 'burst'])
+
+    @reg(E, 'Interval::set_missed_tick_behavior', 'tokio::time::Interval::set_missed_tick_behavior')
+    def set_mtb(E, a, ctx):
+        iv = E.load(a[0])
+        what = repr(a[1]).lower()
+        mode = 'skip' if 'skip' in what else 'delay' if 'delay' in what else 'burst' if 'burst' in what else None
+        if mode is None and isinstance(a[1], Enum):
+            mode = {0: 'burst', 1: 'delay', 2: 'skip'}.get(a[1].var)
+        if mode is None:
+            raise Unsupported(f'missed tick behaviour {a[1]!r}')
+        E.store(a[0], Agg('Interval', [iv.fields[0], iv.fields[1], mode]))
+        return UNIT
+
+    @reg(E, 'Interval::tick', 'tokio::time::Interval::tick')
+    def tick(E, a, ctx):
+        return Agg('TickFut', [a[0]])
+
+    def tick_poll(E, st, place, ctx):
+        ivref = st.fields[0]
+        iv = E.load(ivref)
+        deadline, period, mode = iv.fields
+        facts = E.rt.setdefault('tick_facts', [])
+        if len(facts) >= E.rt.get('tick_budget', 3):
+            return PENDING
+        # what the harness can see at this point: the seconds counted so far, the time, the next deadline
+        facts.append((E.rt['seconds_of'](), E.rt['clock_ms'], deadline))
+        t = E.fresh('tick_at', 64)
+        E.assume(z3.UGE(t, E.rt['clock_ms']), z3.UGE(t, deadline), z3.ULT(t, 1 << 40))
+        E.rt['clock_ms'] = t
+        if mode == 'burst':
+            nd = deadline + period
+        elif mode == 'delay':
+            nd = t + period
+        else:
+            nd = z3.If(z3.ULT(t, deadline + period), deadline + period, t + period - z3.URem(t - deadline, period))
+        E.store(ivref, Agg('Interval', [nd, period, mode]))
+        return ready(Agg('Instant', [deadline]))
+    E.timer_tick_poll = tick_poll
+
+
+def run_timer(ck, tier):
+    """SystemTimer::run executed for k ticks with arbitrary delays of the task between them: whenever the timer task has caught up
+    (no deadline in the past is still undelivered) the seconds it has counted are the whole seconds elapsed since it started"""
+    E = ck.E
+    install_models(E)
+    install_timer_models(E)
+    from mirse.models import tokio_io
+    run = E.fn('SystemTimer', 'run')
+    k = 4 if tier == 'quick' else 6
+    start = z3.BitVec('timer_start_ms', 64)
+
+    def h(E):
+        E.assume(z3.ULT(start, 1 << 30))
+        E.rt['clock_ms'] = start
+        E.rt['tick_budget'] = k
+        E.rt['tick_facts'] = []
+        tcell = E.alloc(mk(E, 'SystemTimer', seconds=BV(0)))
+        E.rt['seconds_of'] = lambda: fld(E, E.heap[tcell], 'SystemTimer', 'seconds')
+        co = E.call(run, [Ref(tcell)])
+        cell = E.alloc(co)
+        r = E.call(co.fn, [Agg('Pin', [Ref(cell)]), Opaque('cx')])
+        return dict(r=r.var, facts=list(E.rt['tick_facts']), seconds=E.rt['seconds_of'](), now=E.rt['clock_ms'])
+    res = ck.explore(h)
+
+    def on_w(m, where):
+        sc = {'kind': 'timer', 'stall_ms': 3200, 'observe_ms': 6500}
+        out = ck.replay([sc], timeout=60)[0]
+        desc = f"SystemTimer::run on a current-thread runtime whose thread is blocked for 3.2 s: after {out.get('elapsed_ms')} ms the server clock reads {out.get('timestamp')} s (every tick delivered: {out.get('elapsed_ms', 0) // 1000 + 1})"
+        # with every tick delivered the clock reads floor(elapsed) + 1 (the first tick is immediate); fewer than floor(elapsed) means seconds were lost
+        bad = out.get('timestamp', 0) < out.get('elapsed_ms', 0) // 1000
+        return (True if bad else None), desc, sc
+    for p in res:
+        if p.status != 'ok':
+            ck.inconclusive.append(f'timer: {p.status} {p.info}')
+            continue
+        F = p.out
+        conds = []
+        for secs, now, deadline in F['facts'][1:]:
+            # caught up: the next deadline lies in the future => counted seconds = deadlines passed = floor((now - start) / 1000) + 1
+            el = now - start
+            conds.append(z3.Implies(z3.UGT(deadline, now), z3.And(z3.ULE((secs - 1) * 1000, el), z3.UGT(secs * 1000, el))))
+        ck.obligation(f'timer: after {k} ticks with arbitrary delays the counted seconds are the elapsed seconds whenever the task has caught up', p.pc,
+                      z3.And(conds) if conds else z3.BoolVal(True), {}, on_w, [])
+        ck.cover('timer: ticks delivered', len(F['facts']) >= k)
+    ck.bounds['timer'] = f'{k} ticks, arbitrary delay before each, period 1 s'
+    # the model of tokio's interval against the real one: the same stall natively must not lose seconds on this tree
+    r, desc, sc = on_w(None, None)
+    if r is None:
+        ck.replays_ok += 1
+    else:
+        ck.replays_bad += 1
+        ck.inconclusive.append('timer model validation: ' + desc)
